@@ -28,10 +28,17 @@ N == Len(ex)
 HasExpr(c) == \E i \in 1..N : ex[i].e = c
 TidOf(c) == ex[CHOOSE i \in 1..N : ex[i].e = c].tid
 PhantomTid == ex[1].tid                       \* expression 0 is always PhantomData<()>
-\* the documented definition with each child expression replaced by the TypeId observed for it
+\* the documented definition with each child expression replaced by the TypeId observed for it.  C04 is about
+\* STRUCTURE (kinds, paths, names, indices, lengths, references): documentation strings and the informal type
+\* names of members are not part of it, so both sides are compared with those blanked
+BlankF(fs) == [k \in 1..Len(fs) |-> [fs[k] EXCEPT !.docs = <<>>, !.tn = <<>>]]
+Blank(info) == [info EXCEPT !.docs = <<>>,
+                            !.def = CASE @.tag = "composite" -> [@ EXCEPT !.fields = BlankF(@)]
+                                      [] @.tag = "variant" -> [@ EXCEPT !.variants = [k \in 1..Len(@) |-> [@[k] EXCEPT !.docs = <<>>, !.fields = BlankF(@)]]]
+                                      [] OTHER -> @]
 ShapeOK(i) == LET want == BuiltinInfo(ex[i].e, DocsOn) IN
    /\ \A c \in Range(Refs(want)) : HasExpr(c)
-   /\ MapRefs(want, LAMBDA c : TidOf(c)) = ex[i].info
+   /\ Blank(MapRefs(want, LAMBDA c : TidOf(c))) = Blank(ex[i].info)
 NoPhantomObserved(info) ==
   CASE info.def.tag = "composite" -> \A i \in 1..Len(info.def.fields) : info.def.fields[i].ty # PhantomTid
     [] info.def.tag = "variant" -> \A i \in 1..Len(info.def.variants) : \A j \in 1..Len(info.def.variants[i].fields) : info.def.variants[i].fields[j].ty # PhantomTid
